@@ -4,6 +4,7 @@ import vcheck
 PROP = "C02"
 
 TRUSTED = [
+    "go2coq translator (harness/cmd/go2coq, semantics coq/lib/GoSem.v): props/C02/coq/Gen.v is regenerated from the Go source of seq.LessOrEqual, seq.Less, util.BinSearchInRange, processor.getLIDsBorders, frac.inverser.Len/Inverse/Revert on every run (subset as documented in the header of harness/cmd/go2coq/main.go: integer/boolean expressions with explicit wrap-around, checked indexing, struct literals, assignment to a field of a local struct, function-typed parameters, function literals, monadic externs; anything else is rejected = red gate). externs (props/C02/coq/GenPrelude.v, hand-written): sort.Search -> sort_Search (the binary search loop of the Go standard library, midpoint (i+j)/2, 65 rounds of fuel, a panicking predicate propagates; theorem C02_gen_sort_Search_adequate: equal to the model's search_loop), the interface value idsIndex -> record ids_index with its methods Len -> ix_len and LessOrEqual -> ix_le (pure). Validated on every run by the gen-* correspondence classes (real function vs generated definition on boundary and random arguments)",
     "Coq 8.16.1 kernel (coqc), vm_compute for case evaluation; no native_compute",
     "hand-written model props/C02/coq/Model.v of the merge nodes (node/*.go), TreeFold, getLIDsBorders, "
     "buildEvalTree/evalLeaf and iterateEvalTree (tied to /repo by the correspondence run, not verified code)",
@@ -62,4 +63,4 @@ def harness_args(tier, seed, outdir):
 
 
 def main(argv):
-    return vcheck.standard_check(PROP, argv, harness_args, TRUSTED, ASSUME, RULE, coqchk=True)
+    return vcheck.standard_check(PROP, argv, harness_args, TRUSTED, ASSUME, RULE, coqchk=True, gen=True)
